@@ -17,7 +17,7 @@ V6 = ["::", "::1", "::ffff:127.0.0.1", "fe80::1", "2001:db8::ff"]
 PORTS = [0, 1, 22, 65535]
 TCP_STATES = {"01": "ESTABLISHED", "02": "SYN_SENT", "03": "SYN_RECV", "04": "FIN_WAIT1", "05": "FIN_WAIT2",
               "06": "TIME_WAIT", "07": "CLOSE", "08": "CLOSE_WAIT", "09": "LAST_ACK", "0A": "LISTEN", "0B": "CLOSING"}
-UPATHS = [None, "/run/x", "@abstract", "/tmp/a b", "/a:b", "/tmp/é"]
+UPATHS = [None, "/run/x", "@abstract", "/tmp/a b", "/a:b", "/tmp/é", "/tmp/a  b", "/tmp/t\tb", "/tmp/end ", "@a b  c"]
 KINDS = ["all", "tcp", "tcp4", "tcp6", "udp", "udp4", "udp6", "unix", "inet", "inet4", "inet6"]
 BADKINDS = ["", "TCP", "raw", None, "t", "tcp, udp", "4", 4]
 KTAB = {"all": ["tcp", "tcp6", "udp", "udp6", "unix"], "tcp": ["tcp", "tcp6"], "tcp4": ["tcp"], "tcp6": ["tcp6"],
